@@ -939,6 +939,22 @@ void *malloc(size_t n)
   return __libc_malloc(n);
 }
 
+/* the package grows its strings with realloc() (gen_allocdefs.h, alloc.h): same class, same counter */
+extern void *__libc_realloc(void *, size_t);
+void *realloc(void *p, size_t n)
+{
+  int f;
+  if (in_shim || !inited || fault_k < 0 || strcmp(fault_class, "malloc")) {
+    if (!in_shim && inited && tracefd >= 0 && getenv("VSHIM_MALLOC_TRACE")) { in_shim++; tr("malloc\t%zu\trealloc", n); in_shim--; }
+    return __libc_realloc(p, n);
+  }
+  in_shim++;
+  f = maybe_fault("malloc");
+  if (f == 1) { tr("malloc\t%zu\t0\t12\tFAULT\trealloc", n); in_shim--; errno = ENOMEM; return 0; }
+  in_shim--;
+  return __libc_realloc(p, n);
+}
+
 int socket(int d, int t, int p)
 {
   REAL(socket); int r; init();
